@@ -396,6 +396,7 @@ Section Step.
         rewrite ?orb_false_r, ?andb_false_r, ?orb_false_r.
         split; [|split].
         * rewrite upd_same. apply sh_jready; auto; cbn; auto.
+          intros N. apply orb_true_iff. right. apply negb_true_iff. now apply Nat.eqb_neq.
         * constructor; cbn; intros; auto using upd_other;
             try (left; reflexivity); try (left; split; [reflexivity | intros; reflexivity]);
             try (match goal with H : ?b = true |- _ => rewrite H; reflexivity end).
@@ -597,5 +598,181 @@ Section Step.
       + intros _. eauto.
       + left. now apply recl_zero_tgt.
   Qed.
+
+  Ltac keepG_t := constructor; try gf HG;
+    [apply asleep_keep | apply full_keep | left; now apply recl_zero_tgt].
+
+  Lemma case_tdonew : stk (base x) t = [FStWrite tgt ST_DONE; FC TDoneW] -> t = tgt -> run x t -> tfin x ->
+    step_goal x t.
+  Proof.
+    intros Hs Et [R1 [R2 R3]] TF. compute_step Hs. split; [|split].
+    - rewrite upd_same. apply sh_ty1; auto. unfold tdone_st, gm. cbn. rewrite <- Et. auto.
+    - constructor; cbn; intros; auto using upd_other;
+        try (left; reflexivity); try (left; split; [reflexivity | intros; reflexivity]).
+      left. apply upd_other. congruence.
+    - keepG_t.
+  Qed.
+
+  Lemma case_ty1 : stk (base x) t = [FStRead tgt; FC TY1] -> t = tgt -> tdone_st x -> step_goal x t.
+  Proof.
+    intros Hs Et TD. compute_step Hs. split; [|split].
+    - rewrite upd_same. now apply sh_ty2.
+    - rely_same.
+    - keepG_t.
+  Qed.
+  Lemma case_ty2 : stk (base x) t = [YNext ST_RUNNING; FC TY2] -> t = tgt -> tdone_st x -> step_goal x t.
+  Proof.
+    intros Hs Et TD. compute_step Hs. split; [|split].
+    - rewrite upd_same. now apply sh_ty3.
+    - rely_same.
+    - keepG_t.
+  Qed.
+  Lemma case_ty3 : stk (base x) t = [FStRead tgt; FC TY3] -> t = tgt -> tdone_st x -> step_goal x t.
+  Proof.
+    intros Hs Et TD. compute_step Hs. split; [|split].
+    - rewrite upd_same. now apply sh_ty4.
+    - rely_same.
+    - keepG_t.
+  Qed.
+  Lemma case_ty4 : stk (base x) t = [FStRead tgt; FC TY4] -> t = tgt -> tdone_st x -> step_goal x t.
+  Proof.
+    intros Hs Et TD. compute_step Hs. split; [|split].
+    - rewrite upd_same. now apply sh_ty5.
+    - rely_same.
+    - keepG_t.
+  Qed.
+  Lemma case_ty5 : stk (base x) t = [FStRead tgt; FC TY5] -> t = tgt -> tdone_st x -> step_goal x t.
+  Proof.
+    intros Hs Et TD. pose proof (recl_zero_tgt Et) as RZ. unfold reclaims in RZ.
+    destruct TD as [F [B [Sl TF]]].
+    compute_step Hs. split; [|split].
+    - rewrite upd_same. apply sh_done.
+    - rely_same.
+    - constructor; try gf HG.
+      + apply asleep_keep.
+      + apply full_keep.
+      + right. unfold reclaims, gm. cbn. rewrite RZ. repeat split; auto.
+        * rewrite <- Et. apply upd_same.
+        * apply TF.
+        * apply TF.
+  Qed.
+
+  (* ---- fiber_join / fiber_tryjoin / fiber_detach ---- *)
+  Lemma idle_client x' : t <> tgt -> run x' t -> idle x' t.
+  Proof. intros N R. split; auto. intros Q. contradiction. Qed.
+
+  Lemma late_upd b : (b = true -> gdet (gh x) = true) ->
+    forall u, upd (late (gh x)) t b u = true -> gdet (gh x) = true.
+  Proof.
+    intros Hb u. unfold upd. destruct (Nat.eqb u t); auto. apply (g_late _ HG).
+  Qed.
+
+  Lemma case_jload p k : stk (base x) t = [CLoadC c_ds 5; FC (JLoaded p k)] -> t <> tgt -> run x t -> step_goal x t.
+  Proof.
+    intros Hs Nt R. compute_step Hs.
+    destruct (Z.eqb_spec (cell (mem (base x)) c_ds) D_DET) as [Z|NZ].
+    - split_fin. cbn -[Z.add Z.mul]. rewrite ?app_nil_r. split; [|split].
+      + rewrite upd_same. apply start_shape. now apply idle_client.
+      + rely_same.
+      + constructor; try gf HG; [apply asleep_keep | apply full_keep | now apply late_upd | apply recl_keep; reflexivity].
+    - cbn -[Z.add Z.mul]. split; [|split].
+      + rewrite upd_same. now apply sh_jxchg.
+      + rely_same.
+      + constructor; try gf HG; [apply asleep_keep | apply full_keep | now apply late_upd | apply recl_keep; reflexivity].
+  Qed.
+
+  Lemma case_trl1 p k : stk (base x) t = [CLoadC c_ds 5; FC (TrL1 p k)] -> t <> tgt -> run x t -> step_goal x t.
+  Proof.
+    intros Hs Nt R. compute_step Hs.
+    destruct (Z.eqb_spec (cell (mem (base x)) c_ds) D_DET) as [Z|NZ].
+    - split_fin. cbn -[Z.add Z.mul]. rewrite ?app_nil_r. split; [|split].
+      + rewrite upd_same. apply start_shape. now apply idle_client.
+      + rely_same.
+      + constructor; try gf HG; [apply asleep_keep | apply full_keep | now apply late_upd | apply recl_keep; reflexivity].
+    - cbn -[Z.add Z.mul]. split; [|split].
+      + rewrite upd_same. now apply sh_trl2.
+      + rely_same.
+      + constructor; try gf HG; [apply asleep_keep | apply full_keep | now apply late_upd | apply recl_keep; reflexivity].
+  Qed.
+
+  Lemma case_trl2 p k : stk (base x) t = [CLoadC c_ds 5; FC (TrL2 p k)] -> t <> tgt -> run x t -> step_goal x t.
+  Proof.
+    intros Hs Nt R. compute_step Hs.
+    destruct (Z.eqb_spec (cell (mem (base x)) c_ds) D_WFJ) as [Z|NZ].
+    - cbn -[Z.add Z.mul]. split; [|split].
+      + rewrite upd_same. apply sh_trx; auto. unfold ds_of. cbn. rewrite Z. discriminate.
+      + rely_same.
+      + keepG.
+    - split_fin. cbn -[Z.add Z.mul]. rewrite ?app_nil_r. split; [|split].
+      + rewrite upd_same. apply start_shape. now apply idle_client.
+      + rely_same.
+      + keepG.
+  Qed.
+
+  Lemma case_jmail p k : stk (base x) t = [CLoadC (c_res t) 5; FC (JMail p k)] -> t <> tgt -> run x t ->
+    taken_by_any x t -> woken (gh x) = true -> mail_ok x t -> na (gh x) = O -> late (gh x) t = false ->
+    step_goal x t.
+  Proof.
+    intros Hs Nt R T W Ml NA LT. compute_step Hs. split; [|split].
+    - rewrite upd_same. apply sh_jclear; auto. intros NS. destruct (Ml NS) as [R0 [A B]]. cbn.
+      unfold gm in B. rewrite A. f_equal. auto.
+    - rely_same.
+    - keepG.
+  Qed.
+
+  Lemma case_jreadres p k : stk (base x) t = [CLoadC (c_res tgt) 5; FC (JReadRes p k)] -> t <> tgt -> run x t ->
+    gfin (gh x) <> None -> released (gh x) = true -> (is_reg (mb (gh x)) = true -> jwr (gh x) = true) ->
+    step_goal x t.
+  Proof.
+    intros Hs Nt R Fn Rl Rg. compute_step Hs. split; [|split].
+    - rewrite upd_same. apply sh_c0; auto. right; left. repeat split; auto.
+      exists p, k, (cell (mem (base x)) (c_res tgt)). split; auto. cbn.
+      destruct (gfin (gh x)) as [R0|] eqn:F; [|contradiction]. f_equal. symmetry. exact (g_fin _ HG _ F).
+    - rely_same.
+    - keepG.
+  Qed.
+
+  Lemma case_jclear p k v : stk (base x) t = [CStoreC (c_res t) 0 5; FC (JCleared p k v)] -> t <> tgt -> run x t ->
+    taken_by_any x t -> woken (gh x) = true -> (nostolen x -> gfin (gh x) = Some v) ->
+    na (gh x) = O -> late (gh x) t = false -> step_goal x t.
+  Proof.
+    intros Hs Nt R T W Vl NA LT. compute_step Hs. split_fin. cbn -[Z.add Z.mul]. rewrite ?app_nil_r.
+    rewrite LT, NA, ?orb_false_r. split; [|split].
+    - rewrite upd_same. apply start_shape. now apply idle_client.
+    - constructor; cbn; intros; auto using upd_other;
+        try (left; reflexivity); try (left; split; [reflexivity | intros; reflexivity]).
+      left. split; auto. intros u N. apply upd_other. lia.
+    - constructor; try gf HG; try (apply recl_keep; reflexivity); cbn; auto; try discriminate;
+        try (intros; discriminate).
+      + intros R0 Q. rewrite upd_other by (unfold tgt in *; lia). now apply (g_fin _ HG).
+      + apply asleep_keep.
+      + apply full_keep.
+      + pose proof (g_len _ HG) as Ln. rewrite NA in Ln. cbn in Ln. now rewrite Ln.
+      + split; auto. intros _. destruct T as [u Q]. exists t, u. auto.
+      + intros e0 [<-|I]; [exact Vl | now apply (g_succ _ HG)].
+  Qed.
+
+  Lemma case_jready p k r j : stk (base x) t = [FStWrite j ST_READY; FC (JReady p k r j)] -> t <> tgt -> run x t ->
+    mb (gh x) = MBTaken j t -> woken (gh x) = false -> gfin (gh x) = Some r -> nb (gh x) = O ->
+    late (gh x) t = false -> (j <> tgt -> stolen_j (gh x) = true) -> step_goal x t.
+  Proof.
+    intros Hs Nt R E W Fr NB LT SJ. pose proof (sleeper_blocked _ _ E W) as Bj. unfold gm in Bj.
+    destruct (g_taken _ HG _ _ E) as [Njt _].
+    destruct R as [R1 [R2 R3]]. unfold gm in *.
+    compute_step Hs. unfold wake. cbn -[Z.add Z.mul]. rewrite Bj. cbn -[Z.add Z.mul].
+    split_fin. cbn -[Z.add Z.mul]. rewrite ?app_nil_r. rewrite LT, NB, ?orb_false_r.
+    split; [|split].
+    - rewrite upd_same. apply start_shape. apply idle_client; auto.
+      unfold run, gm. cbn. rewrite !upd_other by congruence. auto.
+    - constructor; cbn; intros; auto using upd_other;
+        try (left; reflexivity); try (left; split; [reflexivity | intros; reflexivity]).
+      + apply sched_rwk; auto; intros; contradiction.
+      + apply sched_rfst; auto.
+      + right. eauto.
+    - constructor; try gf HG; try (apply recl_keep; reflexivity); cbn; auto; try discriminate;
+        try (intros; discriminate).
+      all: idtac.
+      Show.
+  Abort.
 (*CASES*)
 End Step.
